@@ -88,6 +88,17 @@ def _write(path, data):
         f.write(data)
 
 
+_OSERRS = ('OSError', 'IOError', 'PermissionError', 'FileNotFoundError', 'FileExistsError', 'BlockingIOError',
+           'InterruptedError', 'IsADirectoryError', 'NotADirectoryError', 'TimeoutError', 'BrokenPipeError')
+
+
+def _norm(e):
+    """One violation class per escape site, whatever errno-specific subclass the host error has."""
+    if e.exc_type in _OSERRS:
+        e.signature = 'OSError@' + e.frame
+    return e
+
+
 class Malformed(Exception):
     """Program memory is not a well-formed chain of line records."""
 
@@ -143,6 +154,7 @@ def _first_diff(x, y):
 FMTS = ('B', 'P', 'A')
 DEVS = ('Z', '@', 'CAS')
 CORPUS = ('COLOURS.BAS', 'FONTSCAN.BAS', 'SHOWDBCS.BAS', 'SHOWFONT.BAS', 'SPEED.BAS', 'PCTERM.BAS', 'ANSIVIEW.BAS')
+_NUMTOK = (0x0b, 0x0c, 0x0e, 0x0f, 0x1c, 0x1d, 0x1f)
 _UID = 'ABCDEFGHIJKLMNOPQRSTUVWXYZ0123456789 .-+*/<>=()$%!#?;:'
 
 
@@ -160,7 +172,7 @@ def _canon_stmt(rng, nums):
     if k == 1:
         return 'PRINT "%s";A$;B' % _uid(rng)
     if k == 2:
-        return 'REM ' + _uid(rng, 1, 60)
+        return 'REM ' + _uid(rng, 1, 60 if rng.random() < 0.8 else 240)
     if k == 3:
         return "' " + _uid(rng, 1, 40)
     if k == 4:
@@ -187,7 +199,8 @@ def _raw_stmt(rng):
         s = ''.join(rng.choice(['\x1a', chr(rng.randint(0x80, 0xff)), chr(rng.randint(0x20, 0x7e))]) for _ in range(rng.randint(1, 40)))
         return 'PRINT "%s"' % s.replace('"', "'")
     if k == 1:
-        return 'REM ' + ''.join(chr(rng.choice([0x1a, 0x1a, rng.randint(1, 9), rng.randint(0x0e, 0xff)])) for _ in range(rng.randint(1, 80)))
+        return 'REM ' + ''.join(chr(rng.choice([0x1a, 0x1a, rng.randint(1, 9), rng.randint(0x0e, 0xff)])) for _ in range(rng.randint(1, 80))) + (
+            chr(rng.choice(_NUMTOK)) + 'X' * rng.randint(0, 3) if rng.random() < 0.4 else '')
     if k == 2:
         # 50..120 PRINT tokens: listing far beyond 255 characters
         return ':'.join(['?'] * rng.randint(50, 120))
@@ -221,6 +234,12 @@ def _gen15(rng, tier):
     nums = _line_numbers(rng, nlines)
     if src == 'lines':
         cfg['lines'] = ['%d %s' % (n, _canon_stmt(rng, nums)) for n in nums]
+        if rng.random() < 0.3:
+            # a line whose text is at the 255-character limit of a program line
+            i = rng.randrange(len(nums))
+            head = '%d REM ' % nums[i]
+            total = rng.choice([253, 254, 255, 255])
+            cfg['lines'][i] = head + ''.join(rng.choice('ABCDEFGHIJKLMNOPQRSTUVWXYZ0123456789') for _ in range(total - len(head)))
     elif src == 'raw':
         cfg['lines'] = ['%d %s' % (n, _raw_stmt(rng) if rng.random() < 0.5 else _canon_stmt(rng, nums)) for n in nums]
     elif src == 'tok':
@@ -233,6 +252,9 @@ def _gen15(rng, tier):
             if rng.random() < 0.75:
                 # REM + arbitrary non-zero bytes; lengths make the line ends fall on all cipher positions
                 c = chr(TOK_REM) + ''.join(chr(rng.randint(1, 255)) for _ in range(rng.randint(0, 120 if quick else 240)))
+                if rng.random() < 0.3:
+                    # bytes that are number-constant tokens outside a comment, close to the end of the line
+                    c += chr(rng.choice(_NUMTOK)) + ''.join(chr(rng.randint(1, 255)) for _ in range(rng.randint(0, 3)))
             else:
                 c = chr(TOK_PRINT) + ' "' + ''.join(chr(rng.choice([0x1a, rng.randint(0x20, 0x21), rng.randint(0x23, 0xff)])) for _ in range(rng.randint(0, 40))) + '"'
             body.append([n, c])
@@ -262,9 +284,9 @@ def _gen15(rng, tier):
                 n = rng.choice([0, 1, 2, 3, 10, 11, 12, 13, 14, 142, 143, 144, 286, rng.randint(0, 700)])
                 ops.append({'op': 'cipher', 'kind': 'rand', 'data': ''.join(chr(rng.randint(0, 255)) for _ in range(n))})
         elif r < 0.48 and faulty:
-            at = rng.choice(['open', 'write', 'write', 'write', 'close', 'flush'])
+            at = rng.choice(['open', 'write', 'write', 'write', 'write', 'close', 'close'])
             op = {'op': 'savefault', 'fmt': fmt, 'dev': dev, 'nm': nm, 'at': at,
-                  'nth': rng.choice([1, 1, 2, 3, rng.randint(1, 60), rng.randint(1, 400)]),
+                  'nth': 1 if at != 'write' else rng.choice([1, 1, 1, 2, 2, 3, rng.randint(1, 20), rng.randint(1, 200)]),
                   'errno': rng.choice([errno.ENOSPC, errno.ENOSPC, errno.EIO, errno.EACCES, errno.EROFS, errno.EDQUOT, errno.ENXIO, 131])}
             if at == 'write' and rng.random() < 0.4:
                 op['torn'] = rng.randint(0, 3)
@@ -325,6 +347,29 @@ class S15(object):
         self.open_session()
         self.nrestart += 1
         self.run.fault('restart')
+
+    def claimed(self, *fmts):
+        """Does the property promise anything about this format for this program?"""
+        return self.canon or 'A' not in fmts
+
+    def attempt(self, claimed, fn, what):
+        """Run fn. A host exception where C15 claims nothing (listing/re-entering a non-canonical
+        program as text) is C01's business: note it there, recover, return None."""
+        try:
+            return fn()
+        except EngineCrash as e:
+            if claimed:
+                raise
+            self.run.violate('C01', 'crash:' + e.signature, 'during C15 history (%s, non-canonical program as ASCII): %s: %s\n%s' % (
+                what, e.exc_type, e.exc_msg, e.tb[-1200:]))
+            self.run.probe('crash_unclaimed')
+            try:
+                self.d.close()
+            except EngineCrash:
+                pass
+            self.open_session()
+            self.resync('crash in ' + what)
+            return None
 
     def host(self, dev, nm):
         if dev == 'Z':
@@ -410,6 +455,15 @@ class S15(object):
             os.remove(self.root + '/z/TOK.BAS')
             if r.err is not None:
                 self.v('load-error:harness-built-tokenised-file', 'LOAD of a well-formed tokenised file: %r' % (r,))
+            else:
+                # a tokenised file is the memory image: loading it must restore exactly these records
+                st, img = self.snap()
+                want = bytes(out[1:-1])
+                self.run.probe('image_compared')
+                if img != want:
+                    i = _first_diff(img, want)
+                    self.v('image-differs:B:Z:harness-built-file', 'program memory after LOAD of a well-formed tokenised file differs from the file: '
+                           'lengths %d/%d, first difference at %d\nfile   %s\nmemory %s' % (len(want), len(img), i, _hexs(want[max(0, i - 8):]), _hexs(img[max(0, i - 8):])))
         else:
             data = _read(os.path.join(K.REPO, 'pcbasic', 'data', 'programs', self.cfg['corpus']))
             _write(self.root + '/z/CORPUS.BAS', data)
@@ -508,7 +562,9 @@ class S15(object):
             # C13's business, but an ASCII claim made on a non-canonical listing would be unsound: do not claim
             self.run.probe('listing_not_canonical')
             before_list = None
-        r = self.save(fmt, dev, nm)
+        r = self.attempt(self.claimed(fmt), lambda: self.save(fmt, dev, nm), 'SAVE,A')
+        if r is None:
+            return
         if r.err is not None:
             self.v('save-error:%s:%s%s' % (fmt, dev, tag), 'fault-free SAVE (format %s, device %s) reports %r' % (fmt, dev, r))
             self.run.state('rt', fmt, dev, self.src, 'save-error', tag, self.size_bucket())
@@ -519,7 +575,9 @@ class S15(object):
             self.load(dev, nm, 'LOAD')
         else:
             self.prepare_merge(op)
-            r = self.load(dev, nm, op.get('how', 'LOAD'))
+            r = self.attempt(self.claimed(fmt), lambda: self.load(dev, nm, op.get('how', 'LOAD')), 'LOAD of ASCII file')
+            if r is None:
+                return
             ok = self.check_loaded(op, r, before_img, before_list, tag)
         self.run.state('rt', fmt, dev, self.src, ok, op.get('how'), tag, self.size_bucket())
         if ok is not True or op.get('how') == 'MERGE':
@@ -537,12 +595,19 @@ class S15(object):
         sub = os.path.basename(self.host(dev, nm))
         self.fs.arm(op['at'], nth=op['nth'], err=op['errno'], path_sub=sub, torn=op.get('torn'))
         nfired = len(self.fs.fired)
+        kind = '%s:%s' % (op['at'], errno.errorcode.get(op['errno'], op['errno']))
         try:
             r = self.save(fmt, dev, nm)
+        except EngineCrash as e:
+            self.fs.disarm()
+            if e.exc_type not in _OSERRS and not self.claimed(fmt):
+                self.attempt(False, lambda: (_ for _ in ()).throw(e), 'SAVE,A')
+                return
+            e.exc_msg += ' [SAVE format %s to %s with injected %s]' % (fmt, dev, kind)
+            raise _norm(e)
         finally:
             self.fs.disarm()
         fired = len(self.fs.fired) > nfired
-        kind = '%s:%s' % (op['at'], errno.errorcode.get(op['errno'], op['errno']))
         self.run.state('savefault', fmt, dev, self.src, fired, r.err, op['at'])
         if not fired:
             # the planned call never happened: this was an ordinary save
@@ -579,7 +644,9 @@ class S15(object):
         self.ensure_img()
         if self.start is None:
             return
-        r = self.save(fmt, dev, nm)
+        r = self.attempt(self.claimed(fmt), lambda: self.save(fmt, dev, nm), 'SAVE,A')
+        if r is None:
+            return
         if r.err is not None:
             self.v('save-error:%s:%s' % (fmt, dev), 'fault-free SAVE reports %r' % (r,))
             return
@@ -609,6 +676,9 @@ class S15(object):
             r = self.load(dev, nm, op.get('how', 'LOAD'))
         except EngineCrash as e:
             e.exc_msg += ' [LOAD of a %s-format file on %s, %s; file bytes start %s]' % (fmt, dev, what, _hexs(data, 8))
+            if not self.claimed(fmt):
+                self.attempt(False, lambda: (_ for _ in ()).throw(e), 'LOAD of torn ASCII file')
+                return
             raise
         self.run.state('torn', fmt, dev, self.src, r.err, 'cut_abs' in op, 'flip' in op, min(len(data), 4))
         self.run.probe('torn_loaded')
@@ -621,17 +691,30 @@ class S15(object):
         self.ensure_img()
         if self.start is None:
             return
-        r = self.save(f, 'Z', 'CSRC')
+        claimed = self.claimed(f, t)
+        r = self.attempt(claimed, lambda: self.save(f, 'Z', 'CSRC'), 'SAVE,A')
+        if r is None:
+            return
         if r.err is not None:
             self.v('save-error:%s:Z' % f, 'fault-free SAVE reports %r' % (r,))
             return
         src, out, ref = (self.root + '/z/' + n for n in ('CSRC.BAS', 'COUT.BAS', 'CREF.BAS'))
-        self._converter(t, src, out)
-        # the same in a Session: LOAD the file, SAVE in the target format
-        d2 = _mk(self.w, self.root, self.sk)
-        r1 = d2.exec(b'LOAD "Z:CSRC.BAS"')
-        r2 = d2.exec(b'SAVE "Z:CREF.BAS"' + {'B': b'', 'P': b',P', 'A': b',A'}[t])
-        d2.close()
+
+        def both():
+            self._converter(t, src, out)
+            # the same in a Session: LOAD the file, SAVE in the target format
+            d2 = _mk(self.w, self.root, self.sk)
+            try:
+                return d2.exec(b'LOAD "Z:CSRC.BAS"'), d2.exec(b'SAVE "Z:CREF.BAS"' + {'B': b'', 'P': b',P', 'A': b',A'}[t])
+            finally:
+                try:
+                    d2.close()
+                except EngineCrash:
+                    pass
+        rr = self.attempt(claimed, both, 'convert %s->%s' % (f, t))
+        if rr is None:
+            return
+        r1, r2 = rr
         self.run.probe('converted')
         got = _read(out) if os.path.exists(out) else None
         want = _read(ref) if os.path.exists(ref) else None
@@ -744,6 +827,7 @@ MARK_ALPHA = 'BCDFGHJKLMNPQRSTVWXZ23456789'
 FRAG = 6
 FKEYS = {1: u'\0\x3b', 2: u'\0\x3c', 3: u'\0\x3d', 4: u'\0\x3e', 5: u'\0\x3f', 6: u'\0\x40', 7: u'\0\x41',
          8: u'\0\x42', 9: u'\0\x43', 10: u'\0\x44'}
+BRK_LINES = (40, 50, 70, 70, 70, 80, 100, 130, 510, 900)   # lines without statements that wait inside
 PROG_LINES = (10, 20, 40, 50, 60, 70, 80, 90, 100, 110, 120, 130, 500, 510, 900, 910)
 
 
@@ -888,7 +972,13 @@ def _gen16(rng, tier):
         return 'keys'
 
     def brk():
-        return rng.choice([None, None, rng.randint(1, 30), rng.randint(1, 400), rng.randint(1, 1500)])
+        r = rng.random()
+        if r < 0.35:
+            return None
+        if r < 0.7:
+            # Ctrl-Break when the program is about to execute line L for the k-th time
+            return ['pos', rng.choice(BRK_LINES), rng.choice([1, 1, 2, 3, rng.randint(1, 120), rng.randint(1, 900)])]
+        return ['poll', rng.choice([rng.randint(1, 30), rng.randint(1, 400), rng.randint(1, 1500)])]
 
     def load_op():
         src = 'P'
@@ -941,6 +1031,28 @@ def _gen16(rng, tier):
         else:
             load_op()
     return {'machine': NAME, 'prop': 'C16', 'cfg': cfg, 'ops': ops}
+
+
+SAFETY_POLLS = 3000
+
+
+def _pos_hook(d, line, count):
+    """Poll hook: Ctrl-Break when the program is about to execute `line` for the count-th time.
+    Reads the interpreter position to *schedule* (DESIGN 2.2c), so that two Sessions with different
+    screen states (scrolling adds polls inside PRINT) are interrupted at the same program point."""
+    st = {'n': 0, 'done': False}
+
+    def hook(w):
+        if st['done']:
+            return
+        impl = d.s._impl
+        if impl.interpreter.run_mode:
+            if impl.program.get_line_number(impl.program.bytecode.tell()) == line:
+                st['n'] += 1
+                if st['n'] >= count:
+                    st['done'] = True
+                    w.inputs.pending.append(K.sig_break())
+    return hook
 
 
 class Screen(object):
@@ -1073,22 +1185,37 @@ class S16(object):
         w = self.w
         if via == 'keys' and len(line) > 12:
             via = 'type'
-        if brk:
-            w.at_poll(brk, K.sig_break())
+        hook = None
         out = b''
         try:
-            if via == 'exec':
-                out = self.d.exec(b(line), poll_cap=60000).out
-            else:
-                if script is None:
-                    script = [{'t': 'line' if via == 'type' else 'keys', 'text': line}]
+            if via != 'exec':
                 # show whatever prompt is pending from earlier exec'd statements (EDIT, syntax error)
                 interact(self.d, [], poll_cap=120000)
                 self.scan(self.sink.take(), 'output-stream')
+            if brk:
+                if brk[0] == 'pos':
+                    hook = _pos_hook(self.d, brk[1], brk[2])
+                    w.at_poll(SAFETY_POLLS, K.sig_break())
+                else:
+                    w.at_poll(brk[1], K.sig_break())
+            if via == 'exec':
+                w.poll_hook = hook
+                out = self.d.exec(b(line), poll_cap=60000).out
+            else:
+                if hook is not None:
+                    inner = extra
+
+                    def extra(w, t, hook=hook, inner=inner):
+                        hook(w)
+                        if inner is not None:
+                            inner(w, t)
+                if script is None:
+                    script = [{'t': 'line' if via == 'type' else 'keys', 'text': line}]
                 interact(self.d, script, extra=extra, poll_cap=120000)
         except EngineCrash as e:
             self.crash(e)
         finally:
+            w.poll_hook = None
             w._at_poll.clear()
             del w._timed[:]
             w.inputs.pending.clear()
@@ -1109,7 +1236,7 @@ class S16(object):
 
     def safety_brk(self, brk):
         # every run of program text gets a Ctrl-Break eventually (torn programs and the `loop` ending never stop)
-        return brk if brk else 3000
+        return brk if brk else ['poll', SAFETY_POLLS]
 
     def after_run(self):
         if self.cfg['onerr'] or self.prot is not True:
@@ -1141,12 +1268,15 @@ class S16(object):
         # reference outputs of the unprotected original under each break schedule used by RUN ops
         for op in ops:
             if op['op'] == 'run' and op.get('cmd') == 'RUN' and op.get('via') == 'exec':
-                k = self.safety_brk(op.get('brk'))
-                if k not in self.ref_runs:
-                    self.w.at_poll(k, K.sig_break())
+                k = self.ref_key(op.get('brk'))
+                if k is not None and k not in self.ref_runs:
+                    self.w.at_poll(SAFETY_POLLS, K.sig_break())
+                    if k:
+                        self.w.poll_hook = _pos_hook(d, k[0], k[1])
                     try:
                         self.ref_runs[k] = d.exec(b'RUN', poll_cap=60000).out
                     finally:
+                        self.w.poll_hook = None
                         self.w._at_poll.clear()
                         self.w.inputs.pending.clear()
         d.close()
@@ -1156,6 +1286,15 @@ class S16(object):
         d.exec(b'LOAD "Z:U.BAS"')
         d.exec(b'SAVE "Z:UB.BAS"')
         d.close()
+
+    @staticmethod
+    def ref_key(brk):
+        """Break schedules under which two Sessions are interrupted at the same program point."""
+        if not brk:
+            return ()
+        if brk[0] == 'pos':
+            return (brk[1], brk[2])
+        return None
 
     def pname(self):
         media = self.cfg['media']
@@ -1202,7 +1341,6 @@ class S16(object):
         if fired:
             self.run.probe('faulted_load')
         self.modified = False
-        self.read_done = False
         if runs:
             self.after_run()
         self.run.state('load', how, src, op.get('via'), fired, tuple(e[:2]), self.prot, self.trap)
@@ -1238,14 +1376,14 @@ class S16(object):
 
     def op_run(self, op):
         cmd, viaa = op['cmd'], op.get('via', 'exec')
-        k = self.safety_brk(op.get('brk'))
+        k = self.ref_key(op.get('brk'))
         clean = self.prot is True and not self.modified and self.crashes == 0 and not self.env_dirty
-        out = self.do(cmd, viaa, k)
-        if clean and cmd == 'RUN' and viaa == 'exec' and k in self.ref_runs:
+        out = self.do(cmd, viaa, self.safety_brk(op.get('brk')))
+        if clean and cmd == 'RUN' and viaa == 'exec' and k is not None and k in self.ref_runs:
             self.run.probe('run_compared')
             if out != self.ref_runs[k]:
                 self.run.violate('C16', 'protected-run-differs',
-                                 'op #%d: RUN of the protected program (Ctrl-Break at poll %d) printed %r, the unprotected original %r' % (self.opno, k, out[-400:], self.ref_runs[k][-400:]))
+                                 'op #%d: RUN of the protected program (Ctrl-Break at line/count %r) printed %r, the unprotected original %r' % (self.opno, k, out[-400:], self.ref_runs[k][-400:]))
         self.after_run()
         self.run.state('run', cmd, viaa, self.prot, bool(op.get('brk')), tuple(self.errs(out)[:2]))
         self.scan_all(out)
